@@ -465,7 +465,8 @@ func isNullableTypeNamed(t *ast.Type, typename string) bool {
 }
 
 func isNodeField(f *ast.FieldDefinition) bool {
-	if common.IsNodeInterfaceName(f.Name) || len(f.Arguments) != 1 {
+	// the Relay entry point is the field called node; other fields may have its shape
+	if f.Name != common.NodeFieldName || len(f.Arguments) != 1 {
 		return false
 	}
 	arg := f.Arguments[0]
